@@ -52,6 +52,10 @@ type C13Case struct {
 	BrokenB []string
 	ConvB   []string
 	Fatal   bool // Dirty additionally holds a conflict that must make the run fail (C19 kind)
+	// Single: the clean world as ONE multi-document file with SingleBad kind-less documents (and an unused kind)
+	// inserted at drawn positions; the input path is the file itself, not a directory
+	Single    string `json:",omitempty"`
+	SingleBad int    `json:",omitempty"`
 	// Multi: broken files of Dirty that hold several unreadable documents (file name -> number of documents)
 	Multi map[string]int `json:",omitempty"`
 	// CLI: the stop-on-error clause is also observed at the built binary (`list --fail` next to other options)
@@ -158,6 +162,19 @@ func genC13(t *rapid.T) *C13Case {
 	wb := editWorld(t, w)
 	c.CleanB = wb.YAML()
 	c.Dirty, c.Broken, c.Conv, c.Multi = c13Inject(t, "a", worldDocStrings(w), c.Fatal, w.Workloads)
+	if rapid.IntRange(0, 3).Draw(t, "single") == 0 {
+		docs := worldDocStrings(w)
+		c.SingleBad = rapid.IntRange(1, 2).Draw(t, "singlebad")
+		ins := []string{"apiVersion: v1\nkind: ConfigMap\nmetadata:\n  name: settings\ndata:\n  k: v\n"}
+		for j := 0; j < c.SingleBad; j++ {
+			ins = append(ins, fmt.Sprintf("replicaCount: %d\nimage:\n  tag: v%d\n", j+1, j))
+		}
+		for j, d := range ins {
+			pos := rapid.IntRange(0, len(docs)).Draw(t, fmt.Sprintf("singlepos%d", j))
+			docs = append(docs[:pos], append([]string{d}, docs[pos:]...)...)
+		}
+		c.Single = strings.Join(docs, "---\n")
+	}
 	if rapid.Bool().Draw(t, "injectB") {
 		c.DirtyB, c.BrokenB, c.ConvB, _ = c13Inject(t, "b", worldDocStrings(wb), false, wb.Workloads)
 	} else {
@@ -218,6 +235,39 @@ func checkC13(c *C13Case, st *VStats) *VFailure {
 	if base.Err != nil {
 		st.Class("skip: the clean input is not analysable")
 		return nil
+	}
+	if c.Single != "" && !c.Fatal {
+		// the whole application in one file, named as the input path itself
+		sd := writeFiles([]C12File{{Path: "app.yaml", Content: c.Single}})
+		defer os.RemoveAll(sd)
+		file := filepath.Join(sd, "app.yaml")
+		got := RunList(file, ListOpts{})
+		if got.Panic != nil {
+			return &VFailure{Msg: fmt.Sprintf("list on a single file panicked: %v", got.Panic), Sig: "panic"}
+		}
+		if got.Err != nil {
+			return vfail("single-file input: documents without a kind made the analysis fail: %v", got.Err)
+		}
+		if got.Rel() != base.Rel() {
+			return vfail("single-file input: injected documents changed the computed connections\n--- clean\n%s\n--- single file with injections\n%s", base.Rel(), got.Rel())
+		}
+		cnt := 0
+		for _, e := range got.Errs {
+			if e.Severe && (strings.Contains(e.Msg, "app.yaml") || strings.Contains(e.Loc, "app.yaml")) {
+				cnt++
+			}
+		}
+		if cnt < c.SingleBad {
+			return vfail("single-file input: %d documents without a kind but only %d severe entries name the file (entries: %+v)", c.SingleBad, cnt, got.Errs)
+		}
+		d := RunDiff(file, clean, DiffOpts{})
+		if d.Panic != nil {
+			return &VFailure{Msg: fmt.Sprintf("diff on a single file panicked: %v", d.Panic), Sig: "panic"}
+		}
+		if d.Err != nil || !d.Empty {
+			return vfail("single-file input: diff against the clean input is not empty (err=%v):\n%s", d.Err, diffRel(d))
+		}
+		st.Class("the input path is one multi-document file")
 	}
 	nBad := len(c.Broken) + len(c.Conv)
 	for _, via := range []bool{false, true} {
